@@ -17,7 +17,7 @@ from harness import pipeline_common as pc
 from harness.pipeline_common import Spec
 
 import cutadapt.modifiers as _modifiers
-from cutadapt.modifiers import (QualityTrimmer, NextseqQualityTrimmer, PolyATrimmer, AdapterCutter, PairedEndModifierWrapper)
+from cutadapt.modifiers import QualityTrimmer, NextseqQualityTrimmer, PolyATrimmer, AdapterCutter
 from cutadapt.report import Statistics, FILTERS, full_report, minimal_report
 from cutadapt.steps import HasStatistics, HasFilterStatistics, SingleEndSink, PairedEndSink
 from cutadapt.pipeline import SingleEndPipeline, PairedEndPipeline
@@ -115,7 +115,7 @@ def _account(spec, built, pre, records, result):
     if len(log) > 1:
         return "written %d times" % len(log)
     for writer, recs in log:
-        if len(recs) != len(records) or any(a is not b for a, b in zip(recs, records)):
+        if len(recs) != len(records) or any(not (a is b or a == b) for a, b in zip(recs, records)):
             return "a writer received something else than the read (pair) that was processed"
     to_final = [recs for writer, recs in log if pc.writer_kind(spec, writer) == "final"]
     if d_written == 1:
